@@ -998,6 +998,9 @@ class Family:
             ("tuple", [("tuple", [("tuple", [("id", b.ident("deep_id"))])]), ("lit", b.string(), False)]),
             ("tuple", [("tuple", [("lit", b.string(), False), ("lit", b.string(), False)]),       # a tuple of pairs (dict-able)
                        ("tuple", [("lit", b.string(), False), ("lit", b.integer(), False)])]),
+            ("tuple", [("lit", b.integer(), False),                                                # a member that is a tuple of pairs
+                       ("tuple", [("tuple", [("lit", b.string(), False), ("lit", b.string(), False)])]),
+                       ("lit", b.integer(), False)]),
             ("tuple", [("lit", b.string(), False)]),                       # one-element tuple of a string (which may contain ',')
             ("tuple", [("tuple", [("lit", b.integer(), False), ("lit", b.integer(), False)])]),   # one-element tuple of a tuple
         ]
@@ -1131,6 +1134,15 @@ class Family:
                    ("if", [("cmp", "KW_EQ", ("id", seat), ("lit", b.integer(), False)), "or",
                            ("cmp", "KW_EQ", ("id", plan), ("lit", b.string(), False))], self.groups(2), ("else", self.groups(1))),
                    "conditions read later-sorted splitters first")
+        # a splitter that the conditions read only from inside a tuple literal (and from inside a nested one)
+        owner, acct = b.ident("owner"), b.ident("account")
+        yield Prog(b.ident("e_member"), b.string("salt"), [owner],
+                   ("if", [("cmp", "KW_IN", ("id", b.ident("viewer")), ("tuple", [("id", acct), ("id", owner)]))], self.groups(2),
+                    ("else", self.groups(1))), "splitter read only inside a tuple")
+        yield Prog(b.ident("e_member2"), None, [owner],
+                   ("if", [("cmp", "KW_IN", ("id", b.ident("viewer")),
+                            ("tuple", [("lit", b.integer(), False), ("tuple", [("id", owner), ("lit", b.string(), False)])]))],
+                    self.groups(1), None), "splitter read only inside a nested tuple")
         only = b.ident("only_field")
         yield Prog(b.ident("e2"), None, [only],
                    ("if", [("cmp", "KW_GT", ("id", only), ("lit", b.integer(), False))], self.groups(1), None),
